@@ -39,17 +39,24 @@ func jobsFor(prop, tier string) []Job {
 		}
 		defaultCtorJobs(prop, q, add)
 		bidiJobs(prop, q, add)
+		typedJobs("trees", add)
+		typedJobs("hashmaps", add)
+		typedJobs("bidi", add)
 	case "C02":
 		defaultCtorJobs(prop, q, add)
 		kvTreeJobs(prop, q, add)
 		bidiJobs(prop, q, add)
+		typedJobs("trees", add)
+		typedJobs("bidi", add)
 	case "C07":
 		kvTreeJobs(prop, q, add)
 		jsonFamilyJobs(q, add)
 		defaultCtorJobs(prop, q, add)
 		bidiJobs(prop, q, add)
+		typedJobs("trees", add)
 	case "C10":
 		bidiJobs(prop, q, add)
+		typedJobs("bidi", add)
 	case "C03":
 		n := pick(6, 8)
 		for _, k := range []string{"arraylist", "singlylinkedlist", "doublylinkedlist"} {
@@ -59,6 +66,7 @@ func jobsFor(prop, tier string) []Job {
 			dn := pick(70, 140)
 			add("list", fmt.Sprintf("%s.deep.n%d", k, dn), n, map[string]string{"c": k}, map[string]int{"n": dn, "deep": 1})
 		}
+		typedJobs("lists", add)
 	case "C04":
 		u := pick(4, 5)
 		add("set", fmt.Sprintf("hashset.u%d", u), u, map[string]string{"c": "hashset"}, map[string]int{"u": u})
@@ -68,6 +76,10 @@ func jobsFor(prop, tier string) []Job {
 			add("anysys", c+".float", 1, map[string]string{"c": c, "elem": "float"}, nil)
 		}
 		add("anysys", "linkedhashset.deep", 1, map[string]string{"c": "linkedhashset"}, map[string]int{"n": pick(24, 48), "deep": 1})
+		// large hash-based sets (fresh members, state = size): bulk Add of 33, ONE Remove call that takes out
+		// most of the members (after seeded change C04-13: a table re-allocated in the middle of such a call)
+		add("anysys", "hashset.deep", 1, map[string]string{"c": "hashset"}, map[string]int{"n": pick(100, 200), "deep": 1})
+		add("anysys", "linkedhashset.deep.large", 1, map[string]string{"c": "linkedhashset"}, map[string]int{"n": pick(100, 200), "deep": 1})
 		// the default comparator of treeset.New must order the whole element type (float64 with NaN)
 		add("kv", "treeset.New.float64", 3, map[string]string{"c": "treeset", "ctor": "default", "elem": "float"}, nil)
 		for _, c := range []string{"nat", "rev", "coarse"} {
@@ -75,7 +87,10 @@ func jobsFor(prop, tier string) []Job {
 			n := pick(10, 14)
 			add("kv", fmt.Sprintf("treeset.rank.%s.n%d", c, n), n*n, map[string]string{"c": "treeset", "cmp": c}, map[string]int{"n": n, "rank": 1})
 		}
+		typedJobs("sets", add)
 	case "C06":
+		typedJobs("heaps", add)
+		rewoundJobs("heaps", q, add)
 		for _, k := range []string{"binaryheap", "priorityqueue"} {
 			add("heapnew", fmt.Sprintf("%s.New.n%d", k, pick(6, 8)), 30, map[string]string{"c": k}, map[string]int{"n": pick(6, 8), "u": 3})
 			add("heapnewf", fmt.Sprintf("%s.New.float.n%d", k, pick(5, 6)), 30, map[string]string{"c": k}, map[string]int{"n": pick(5, 6), "u": pick(4, 5)})
@@ -152,6 +167,7 @@ func jobsFor(prop, tier string) []Job {
 		for _, m := range []int{3, 4, 5, 8} {
 			add("family", fmt.Sprintf("btree%d.iterfamily.u%d", m, pick(48, 80)), 10, map[string]string{"c": "btree", "cmp": "nat", "check": "iter"}, map[string]int{"u": pick(48, 80), "m": m})
 		}
+		rewoundJobs("all", q, add)
 	case "C13":
 		for _, c := range []string{"hashset", "linkedhashset", "treeset"} {
 			add("setalgbig", c+".large", 5, map[string]string{"c": c}, map[string]int{"maxa": pick(40, 80)})
@@ -351,6 +367,7 @@ func jobsFor(prop, tier string) []Job {
 		dn := pick(24, 48)
 		add("linkeddeep", fmt.Sprintf("linkedhashmap.deep.n%d", dn), 3, map[string]string{"c": "linkedhashmap"}, map[string]int{"n": dn, "deep": 1})
 		add("linkeddeep", fmt.Sprintf("linkedhashset.deep.n%d", dn), 3, map[string]string{"c": "linkedhashset"}, map[string]int{"n": dn, "deep": 1})
+		rewoundJobs("linked", q, add)
 	case "C05":
 		n := pick(5, 7)
 		for _, k := range []string{"arraystack", "linkedliststack", "arrayqueue", "linkedlistqueue"} {
@@ -362,13 +379,22 @@ func jobsFor(prop, tier string) []Job {
 			add("seq", fmt.Sprintf("ring%d", c), c, map[string]string{"c": "circularbuffer"}, map[string]int{"cap": c, "u": 2})
 		}
 		// deep, data-independent jobs: fresh values dropped from the fingerprint
-		dn := pick(40, 100)
+		// (70 / 140: the array behind ArrayStack / ArrayQueue reaches capacity 126 / 254 — a Clear at that
+		// capacity followed by a short refill and a removal is in the alphabet; after seeded change C05-14)
+		dn := pick(70, 140)
 		for _, k := range []string{"arraystack", "linkedliststack", "arrayqueue", "linkedlistqueue"} {
 			add("seq", fmt.Sprintf("%s.deep.n%d", k, dn), 3, map[string]string{"c": k}, map[string]int{"n": dn, "deep": 1})
 		}
-		for _, c := range []int{7, 8, 16, pick(17, 33)} {
+		// ring capacities around powers of two and between them (33, 40, 65: a ring that allocates lazily in
+		// chunks is clamped by such a capacity; after seeded change C05-13): every (start, size) offset
+		rings := []int{7, 8, 16, 17, 33, 40, 65}
+		if !q {
+			rings = append(rings, 100, 129)
+		}
+		for _, c := range rings {
 			add("seq", fmt.Sprintf("ring%d.deep", c), 3, map[string]string{"c": "circularbuffer"}, map[string]int{"cap": c, "deep": 1})
 		}
+		typedJobs("seqs", add)
 	}
 	return jobs
 }
@@ -394,6 +420,86 @@ func jsonFamilyJobs(q bool, add func(kind, id string, w int, s map[string]string
 			maxn, deepn = pick(12, 20), pick(3, 4)
 		}
 		add("jsonfamily", id+".jsonfamily", 20, map[string]string{"c": t.c}, map[string]int{"m": t.m, "maxn": maxn, "deepn": deepn})
+	}
+}
+
+// typedJobs: every container kind of the given group instantiated with sized / unsigned integer
+// element and key types at their limits (typed.go); plain searches under the family oracles.
+func typedJobs(group string, add func(kind, id string, w int, s map[string]string, p map[string]int)) {
+	els := []string{"i8", "i64", "u64"}
+	for _, el := range els {
+		switch group {
+		case "trees":
+			for _, c := range []string{"rbt", "avl", "treemap", "btree"} {
+				add("anysys", fmt.Sprintf("%s.New.%s", c, el), 3, map[string]string{"c": c, "ctor": "default", "elem": el}, map[string]int{"u": 5, "m": 3})
+			}
+			add("anysys", "rbt.rev."+el, 3, map[string]string{"c": "rbt", "cmp": "rev", "elem": el}, map[string]int{"u": 5})
+			add("anysys", "btree4.coarse."+el, 3, map[string]string{"c": "btree", "cmp": "coarse", "elem": el}, map[string]int{"u": 5, "m": 4})
+		case "hashmaps":
+			for _, c := range []string{"hashmap", "linkedhashmap"} {
+				add("anysys", c+"."+el, 3, map[string]string{"c": c, "elem": el}, map[string]int{"u": 4})
+			}
+		case "bidi":
+			add("anysys", "treebidimap.New."+el, 3, map[string]string{"c": "treebidimap", "ctor": "default", "elem": el}, map[string]int{"u": 3})
+			add("anysys", "treebidimap.rev.coarse."+el, 3, map[string]string{"c": "treebidimap", "cmp": "rev", "vcmp": "coarse", "elem": el}, map[string]int{"u": 3, "vu": 4})
+			add("anysys", "hashbidimap."+el, 3, map[string]string{"c": "hashbidimap", "elem": el}, map[string]int{"u": 3})
+		case "lists":
+			for _, c := range []string{"arraylist", "singlylinkedlist", "doublylinkedlist"} {
+				add("anysys", c+"."+el, 5, map[string]string{"c": c, "elem": el}, map[string]int{"n": 4, "u": 3, "jsonops": 1})
+			}
+		case "sets":
+			for _, c := range []string{"hashset", "linkedhashset"} {
+				add("anysys", c+"."+el, 3, map[string]string{"c": c, "elem": el}, map[string]int{"u": 4})
+			}
+			add("anysys", "treeset.New."+el, 3, map[string]string{"c": "treeset", "ctor": "default", "elem": el}, map[string]int{"u": 5})
+			add("anysys", "treeset.rev."+el, 3, map[string]string{"c": "treeset", "cmp": "rev", "elem": el}, map[string]int{"u": 4})
+		case "seqs":
+			for _, c := range []string{"arraystack", "linkedliststack", "arrayqueue", "linkedlistqueue"} {
+				add("anysys", c+"."+el, 3, map[string]string{"c": c, "elem": el}, map[string]int{"n": 4, "u": 3, "jsonops": 1})
+			}
+			add("anysys", "ring3."+el, 3, map[string]string{"c": "circularbuffer", "elem": el}, map[string]int{"cap": 3, "u": 3, "jsonops": 1})
+		case "heaps":
+			for _, c := range []string{"binaryheap", "priorityqueue"} {
+				add("anysys", c+".New."+el, 3, map[string]string{"c": c, "ctor": "default", "elem": el}, map[string]int{"n": 5, "u": 4})
+				add("anysys", c+".max."+el, 3, map[string]string{"c": c, "cmp": "rev", "elem": el}, map[string]int{"n": 5, "u": 4})
+			}
+		}
+	}
+}
+
+// rewoundJobs: iterators kept across a modification and re-positioned afterwards (linked.go
+// rewoundIteratorCheck); group "heaps" (C06), "linked" (C09) or "all" (C08).
+func rewoundJobs(group string, q bool, add func(kind, id string, w int, s map[string]string, p map[string]int)) {
+	pick := func(a, b int) int {
+		if q {
+			return a
+		}
+		return b
+	}
+	n := pick(3, 4)
+	if group == "heaps" || group == "all" {
+		for _, c := range []string{"binaryheap", "priorityqueue"} {
+			add("rewound", "rewound."+c, 5, map[string]string{"c": c}, map[string]int{"n": n + 1, "pmax": 2, "jsonlen": 2, "pairs": 2})
+			add("rewound", "rewound."+c+".str", 5, map[string]string{"c": c, "elem": "str"}, map[string]int{"n": n, "u": 3, "jsonlen": 2, "pairs": 2})
+		}
+	}
+	if group == "linked" || group == "all" {
+		for _, c := range []string{"linkedhashset", "linkedhashmap"} {
+			add("rewound", "rewound."+c, 5, map[string]string{"c": c}, map[string]int{"u": n, "jsonops": 1, "pairs": 2})
+		}
+	}
+	if group == "all" {
+		for _, c := range []string{"arraylist", "singlylinkedlist", "doublylinkedlist", "arraystack", "linkedliststack", "arrayqueue", "linkedlistqueue"} {
+			add("rewound", "rewound."+c, 5, map[string]string{"c": c}, map[string]int{"n": n, "u": 2, "jsonops": 1, "pairs": 1})
+		}
+		add("rewound", "rewound.circularbuffer3", 5, map[string]string{"c": "circularbuffer"}, map[string]int{"cap": 3, "u": 2, "jsonops": 1, "pairs": 2})
+		for _, c := range []string{"treeset", "treemap", "treebidimap"} {
+			add("rewound", "rewound."+c, 5, map[string]string{"c": c}, map[string]int{"u": n, "pairs": 2})
+		}
+		for _, c := range []string{"rbt", "avl"} {
+			add("rewound", "rewound."+c, 5, map[string]string{"c": c}, map[string]int{"n": pick(5, 7), "rank": 1, "pairs": 2})
+		}
+		add("rewound", "rewound.btree3", 8, map[string]string{"c": "btree"}, map[string]int{"m": 3, "n": pick(7, 9), "rank": 1, "pairs": 2})
 	}
 }
 
@@ -668,6 +774,22 @@ func init() {
 			e.OnState = func(path []Op, build func() Inst, st *Stats) *Viol {
 				st.Nested["drains"]++
 				return build().(*heapBox[HE]).drain()
+			}
+		})
+	}
+	// iterators kept across a modification and re-positioned afterwards (linked.go)
+	jobKinds["rewound"] = func(j Job, r *JobResult) {
+		props := []string{"C08"}
+		switch j.s("c", "") {
+		case "binaryheap", "priorityqueue":
+			props = append(props, "C06")
+		case "linkedhashset", "linkedhashmap":
+			props = append(props, "C09")
+		}
+		exploreJob(j, r, makeSys(j.s("c", ""), j), func(e *Explorer) {
+			e.NoState = true
+			e.OnState = func(path []Op, build func() Inst, st *Stats) *Viol {
+				return rewoundIteratorCheck(build, st, tag(props...), j.p("pairs", 1))
 			}
 		})
 	}
